@@ -97,6 +97,12 @@ def evaluate_on_grid(
             nz,
         )
 
+        if cell_positions_in_original_basis_z is None:
+            # In 2D the cells have no extent along the normal: all the depth
+            # samples of a pixel lie in the same cell
+            iz1 = 0
+            iz2 = nz
+
         for k in range(iz1, iz2):
             for j in range(iy1, iy2):
                 for i in range(ix1, ix2):
